@@ -42,6 +42,23 @@ LinealCentroid(g) == LET ss == AllLineSegs(g) L(i) == Isqrt(SegLen2(ss[i])) IN
      SumSeq([i \in 1..Len(ss) |-> L(i)*(ss[i][1][2]+ss[i][2][2])]),
      2*SumSeq([i \in 1..Len(ss) |-> L(i)])>>
 PointCentroid(g) == <<SumSeq([i \in 1..Len(g.pts) |-> g.pts[i][1]]), SumSeq([i \in 1..Len(g.pts) |-> g.pts[i][2]]), Len(g.pts)>>
+\* When a segment length is irrational the lineal centroid is not a rational number; it is then bracketed with
+\* the lengths known to 1/64: with lo_i <= 64*len_i <= lo_i + 1 and non-negative coordinates,
+\*   sum lo_i (a_i + b_i) / (2 sum hi_i)  <=  c  <=  sum hi_i (a_i + b_i) / (2 sum lo_i)
+LinealBracket(g, k, n) ==
+  LET ss == AllLineSegs(g)
+      lo(i) == Isqrt(SegLen2(ss[i]) * 4096)
+      SLo == SumSeq([i \in 1..Len(ss) |-> lo(i)])
+      SHi == SLo + Len(ss)
+      ALo == SumSeq([i \in 1..Len(ss) |-> lo(i) * (ss[i][1][k] + ss[i][2][k])])
+      AHi == ALo + SumSeq([i \in 1..Len(ss) |-> ss[i][1][k] + ss[i][2][k]])
+  IN Len(ss) > 24 \/ (/\ (n + 2) * 2 * SHi >= 1024 * ALo
+                      /\ (SLo = 0 \/ (n - 2) * 2 * SLo <= 1024 * AHi))
+\* every vertex ordinate of the geometry (the centroid of anything lies in the box they span)
+Ords(g, k) == {g.pts[i][k] : i \in 1..Len(g.pts)}
+              \cup UNION {{g.lines[i][j][k] : j \in 1..Len(g.lines[i])} : i \in 1..Len(g.lines)}
+              \cup UNION {UNION {{g.areas[i][r][j][k] : j \in 1..Len(g.areas[i][r])} : r \in 1..Len(g.areas[i])} : i \in 1..Len(g.areas)}
+InSpan(g, k, n) == LET S == Ords(g, k) IN (\E v \in S : 1024 * v <= n + 2) /\ (\E v \in S : n - 2 <= 1024 * v)
 \* logged n = round(c * 1024) against num/den
 CNear(n,num,den) == Abs(n*den - num*1024) <= 2*Abs(den)
 =============================================================================
